@@ -155,8 +155,10 @@ def native_build(sc, q, tag):
     return exe, ''
 
 
-def native_run(exe, replay, timeout=20):
+def native_run(exe, replay, timeout=20, search=False):
     env = dict(os.environ, ASAN_OPTIONS='detect_leaks=0:abort_on_error=0:exitcode=99', UBSAN_OPTIONS='print_stacktrace=1:halt_on_error=1:exitcode=98')
+    if search:
+        env['VF_SEARCH'] = '1'
     rc, out, err, to, dt = sh([exe, replay], timeout=timeout, env=env)
     if to:
         return 'timeout', 'native run did not terminate within %ds' % timeout
@@ -166,7 +168,7 @@ def native_run(exe, replay, timeout=20):
         return 'assume', err[-400:]
     if rc in (78, 79):
         return 'error', err[-400:]
-    return 'fail', (err[-1500:] or out[-500:])
+    return 'fail', (err[-6000:] or out[-500:])
 
 
 def prepare(sc, q):
@@ -298,6 +300,16 @@ def run_query(sc, q, args):
             if exe is None:
                 res['notes'].append('native build failed: ' + berr[-800:])
         verdict, detail = ('error', 'no native build') if exe is None else native_run(exe, rp)
+        if verdict == 'pass' and q.get('native_search') and exe is not None:
+            # model over-approximates libc: look for a realisable witness near the solver's model (harness-defined search)
+            v2, d2 = native_run(exe, rp, timeout=120, search=True)
+            if v2 == 'fail':
+                found = dict(re.findall(r'VF_INPUT (\w+) ([0-9a-f]*)', d2))
+                if found:
+                    fields = {k: bytes.fromhex(v) for k, v in found.items()}
+                    write_replay(rp, q, fields, prop)
+                    verdict, detail = native_run(exe, rp)
+                    detail = 'witness found by native search near the solver model; ' + detail
         entry = {'kind': kind, 'property': r.get('property'), 'description': desc, 'line': prop['location'].get('line'),
                  'function': prop['location'].get('function'), 'replay': rp, 'native': verdict, 'detail': detail[-600:]}
         res['failed'].append(entry)
